@@ -19,6 +19,14 @@ CHECKS = {
    text="The real from_json runs on a symbolic ASCII tag (vector of bounded symbolic character codes, every length up to the bound) against a nondeterministic import environment (every outcome importlib's contract allows x every kind of object a name can resolve to); all paths are explored and on each the solver decides that the outcome is a documented error identifying the problem or an instance of exactly the named class, also when the document is presented twice. Counterexamples are replayed against the real import system (environment realised through sys.modules). A categorical pool with real imports and CrossHair obligations on str/int/float/list/dict tags over Unicode complement it as bug hunting.",
    note="Tags <= 7 (quick) / <= 9 (thorough) ASCII characters in the exhaustive part; import_module/getattr are stubs constrained by their contract (listed in evidence.assumptions); CrossHair 'Not confirmed' is inconclusive and reported as such. Trusted: z3, symx/symstr proxies (validated against native runs), CrossHair.",
    technique="symbolic execution of the real resolver over z3 (symx with symbolic strings, environment as nondeterministic stubs); CrossHair as second engine"),
+ "C01": dict(category="model_checking", design="DESIGN.md 4 C01",
+   text="Every query shape of a bounded grammar (and_/or_/not_/exists/for_all nesting to depth 3 over comparisons, membership, attribute chains, indexing, calls, predicates, HasType, nested the()) with every selection is executed by the real EQL engine on symbolic domains: attribute values and literals are unbounded z3 integers, domain sizes bounded symbolic choices (incl. empty). On every path the solver decides soundness (every returned row has a satisfying assignment), completeness (every satisfying assignment's projection is returned) and row consistency against a first-order oracle built as a z3 term over the same symbolic values.",
+   note="Domains of <= 2 (quick) / <= 3 (thorough) objects per variable, <= 3 variables + quantified ones, depth <= 3; integer attribute values; identity-eq and value-eq dataclasses. One known finding (union with an empty domain) is listed in known_findings.json. Trusted: z3, symx proxies (validated against native runs every run), the oracle (40 lines).",
+   technique=SYMX),
+ "C02": dict(category="model_checking", design="DESIGN.md 4 C02",
+   text="Same engine and shapes as C01 restricted to the negation-normal conjunctive/else-if fragment: for every candidate row the solver decides that the number of times it is returned equals the number of satisfying assignments projecting onto it (z3 Sum of If), and that the(...) returns / raises NoSolutionFound / MultipleSolutionFound exactly according to that count, also for a count taken after the() stopped early.",
+   note="Bounds as C01. Trusted: z3, symx proxies, the oracle.",
+   technique=SYMX),
 }
 NA_REASON = "check not built yet (build in progress, see DESIGN.md section 9 for the build order)"
 NA = {}
